@@ -23,6 +23,11 @@ FILES = {
     "semerrwarn.c": "int f(void)(void);\nint;\n",
     "semwarnerr.c": "int;\nint f(void)(void);\n",
     "semwarn.c": "int;\n",
+    # nothing to analyse: no bytes at all, blanks only, a comment only — the front end reports no error, so the status is 0
+    "empty.c": "",
+    "newline.c": "\n",
+    "blank.c": " \t\n\n",
+    "comment.c": "/* nothing */\n/* here */\n",
 }
 STD = [None, "c89", "c90", "c99", "c11", "c17", "c18"]
 DIS = [None, "a", "h", "ah", "none"]
